@@ -729,6 +729,7 @@ class Walker:
         written = self.effects.written_in(self.func, body)
         lp.assigned, lp.written = assigned, written
         entry_env = dict(st.env)
+        self.emit("loopstart", s, st, loop=lp)
         head = st.copy()
         self.kill(head, assigned, written)
         # Houdini over the rule-supplied candidate invariants
